@@ -49,6 +49,22 @@ _TYPE_BASES = {
 }
 
 
+# late types deriving from concrete compound operators: they inherit a real rule of every
+# UFL algorithm (lowering, differentiation, degree estimation, ...)
+_CONCRETE_OPS = {
+    "Inner": "ufl.tensoralgebra.Inner",
+    "Dot": "ufl.tensoralgebra.Dot",
+    "Outer": "ufl.tensoralgebra.Outer",
+    "Trace": "ufl.tensoralgebra.Trace",
+    "Sym": "ufl.tensoralgebra.Sym",
+    "Transposed": "ufl.tensoralgebra.Transposed",
+    "Div": "ufl.differentiation.Div",
+    "Grad": "ufl.differentiation.Grad",
+    "Sin": "ufl.mathfunctions.Sin",
+    "Sqrt": "ufl.mathfunctions.Sqrt",
+    "Conj": "ufl.algebra.Conj",
+}
+
 _MI_SECOND = {"Conj": "ufl.algebra.Conj", "Real": "ufl.algebra.Real", "Imag": "ufl.algebra.Imag"}
 
 
@@ -66,6 +82,18 @@ def _mk_new_type(node, name, base_spec, abstract):
     elif isinstance(base_spec, list):  # ["$", slot] -> earlier new type
         base = node.dec(base_spec)
         kind = base._sim_kind
+        if kind == "cmp":
+            body = {"__slots__": (), "_sim_kind": "cmp", "__str__": lambda self: f"{name}({', '.join(map(str, self.ufl_operands))})"}
+            cls = ufl_type(is_abstract=False)(type(name, (base,), body))
+            cls.__module__ = "simtypes"
+            return cls
+    elif base_spec in _CONCRETE_OPS:
+        base = ops.resolve(_CONCRETE_OPS[base_spec])
+        body = {"__slots__": (), "_sim_kind": "cmp", "__str__": lambda self: f"{name}({', '.join(map(str, self.ufl_operands))})"}
+        cls = type(name, (base,), body)
+        cls = ufl_type(is_abstract=False)(cls)
+        cls.__module__ = "simtypes"
+        return cls
     else:
         path, kind = _TYPE_BASES[base_spec]
         base = ops.resolve(path)
@@ -157,6 +185,10 @@ def xop_newexpr(node, op):
     kind = cls._sim_kind
     if kind == "term":
         e = cls()
+    elif kind == "cmp":
+        e = cls(*node.dec(arg))
+        if type(e) is not cls:
+            raise Skip("constructor-simplified")
     else:
         e = cls(node.dec(arg))
     node.put(out, e)
